@@ -15,7 +15,7 @@ int verif_fft_cache_capacity();
 
 static vh::Out out;
 
-struct Op { char kind; int n; int m; };   // kind: c fft(cmplx), r fft(real), i irfft(n), f ifft(n), z czt(n,m)
+struct Op { char kind; int n; int m; };   // kind: c fft(cmplx), r fft(real), i irfft(n) full spectrum, h irfft(n) half spectrum, f ifft(n), z czt(n,m)
 
 static std::string op_str(const Op& o) {
     std::string s(1, o.kind);
@@ -44,6 +44,12 @@ static std::vector<double> run_op(const Op& o) {
     case 'f': push(ifft(in_c(o.n))); break;
     case 'r': push(fft(in_r(o.n))); break;
     case 'i': { auto y = irfft(fft(in_r(o.n)), o.n); for (int i = 0; i < y.size(); ++i) r.push_back(y[i]); break; }
+    case 'h': {   // irfft from the first n/2+1 bins only (same bin count as a full spectrum of length n/2+1)
+        const arr_cmplx X = fft(in_r(o.n));
+        auto y = irfft(arr_cmplx(X.slice(0, o.n / 2 + 1)), o.n);
+        for (int i = 0; i < y.size(); ++i) r.push_back(y[i]);
+        break;
+    }
     case 'z': push(czt(in_c(o.n), o.m, expj(-2 * pi / (o.m + 1.5)), cmplx_t(1.0, 0.0))); break;
     }
     return r;
@@ -153,10 +159,13 @@ int main(int argc, char** argv) {
     const std::vector<Op> AR = {{'r', 16, 0}, {'r', 60, 0}, {'r', 45, 0}, {'r', 47, 0}, {'r', 7, 0}, {'r', 100, 0}};
     // mixed
     const std::vector<Op> AM = {{'c', 30, 0}, {'r', 60, 0}, {'i', 60, 0}, {'f', 15, 0}, {'z', 10, 7}, {'r', 43, 0}, {'c', 64, 0}, {'c', 8, 0}};
+    // inverse real transforms given all n bins or only n/2+1 bins: 'i10' and 'h18' both pass 10 bins, 'i18'/'h34' both 18
+    const std::vector<Op> AI = {{'i', 10, 0}, {'h', 18, 0}, {'i', 18, 0}, {'h', 34, 0}, {'h', 10, 0}, {'i', 6, 0}};
     const int L = a.thorough ? 7 : 5;
     enumerate(AC, L, false);
     enumerate(AR, L, false);
     enumerate(AM, a.thorough ? 5 : 4, false);
+    enumerate(AI, a.thorough ? 5 : 4, false);
     enumerate(AC, a.thorough ? 5 : 3, true);
     // random long histories over 40 lengths with long-lived plan objects interleaved
     std::vector<int> lens;
@@ -170,7 +179,7 @@ int main(int argc, char** argv) {
             case 0: case 1: case 2: h.push_back({'c', n, 0}); break;
             case 3: case 4: h.push_back({'r', n, 0}); break;
             case 5: h.push_back({'f', n, 0}); break;
-            case 6: h.push_back({'i', 2 * n, 0}); break;
+            case 6: h.push_back({(rng.next() & 1) ? 'i' : 'h', 2 * n, 0}); break;
             default: h.push_back({'z', n, 1 + int(rng.next() % 40)}); break;
             }
         }
